@@ -10,18 +10,21 @@ abbrev Mat := LA.Mat Rat
 
 def showDense (d : List (List Rat)) : String := " ".intercalate ("D" :: d.flatten.map showRat)
 
-def dump : Mat → String
+def dumpWith (v : String) : Mat → String
   | .csr A => " ".intercalate ["csr", toString A.rows, toString A.cols, toString A.usedElements,
-      showNatsL A.colInd.toList, showNatsL A.rowPtr.toList, showRatsL A.val.toList, showDense A.toDense]
+      showNatsL A.colInd.toList, showNatsL A.rowPtr.toList, showRatsL A.val.toList, v, showDense A.toDense]
   | .cscr A => " ".intercalate ["cscr", toString A.rows, toString A.cols, toString A.usedElements, toString A.usedRows,
-      showNatsL A.colInd.toList, showNatsL A.rowPtr.toList, showNatsL A.rowNumbers.toList, showRatsL A.val.toList,
+      showNatsL A.colInd.toList, showNatsL A.rowPtr.toList, showNatsL A.rowNumbers.toList, showRatsL A.val.toList, v,
       showDense A.toDense]
   | .banded A => " ".intercalate ["banded", toString A.rows, toString A.cols, toString A.usedElements, toString A.noo,
-      showNatsL A.offsets.toList, showRatsL A.val.toList, showDense A.toDense]
-  | .dense A => " ".intercalate ["dense", toString A.rows, toString A.cols, showRatsL A.val.toList, showDense A.toDense]
+      showNatsL A.offsets.toList, showRatsL A.val.toList, v, showDense A.toDense]
+  | .dense A => " ".intercalate ["dense", toString A.rows, toString A.cols, showRatsL A.val.toList, v, showDense A.toDense]
   | .bcsr A => " ".intercalate ["bcsr", toString A.bh, toString A.bw, toString A.rows, toString A.cols,
-      toString A.usedElements, showNatsL A.colInd.toList, showNatsL A.rowPtr.toList, showRatsL A.val.toList,
+      toString A.usedElements, showNatsL A.colInd.toList, showNatsL A.rowPtr.toList, showRatsL A.val.toList, v,
       showDense A.toDense]
+
+/-- every dump carries the structural validity `Mat.valid` of the container (`V1` / `V0`) -/
+def dump (m : Mat) : String := dumpWith (if m.valid then "V1" else "V0") m
 
 /-- the arrays of a container as a heap + handle (ids in `_elements` / `_indices` order); a container without
     (non-null) arrays has empty id lists -/
@@ -137,6 +140,7 @@ def xopP (m : Mat) (op : String) : P (Option XOp) := do
   match op, m with
   | "it", _ => pure (some .itx)
   | "dt", _ => pure (some .dtx)
+  | "dtw", _ => pure (some .dtw)
   | "layoutz", _ => pure (some .layoutz)
   | "layouta", _ => let k ← nat; pure (some (.layouta k))
   | "graphz", _ => pure (some .graphz)
@@ -204,10 +208,70 @@ def stepsP : Nat → Mat → String → P String
       match (← opP) with
       | none => pure "BAD-OP"
       | some o =>
-        match m.step o with
+        match m.stepCode o with
         | .ok m' => stepsP n m' (acc ++ "| " ++ prefixOf m o ++ dump m' ++ " ")
         | .abort => pure "ABORT"
+        | .crash => pure "CRASH"
         | .bad => pure "BAD-OP"
+
+/-- vectors (`vecx` lines): (kind, size, index array, value array) -/
+structure VecX where
+  kind : String
+  size : Nat
+  idx : Array Nat
+  val : Array Rat
+
+def dumpVecX (v : VecX) : String :=
+  " ".intercalate [v.kind, toString v.size, showNatsL v.idx.toList, showRatsL v.val.toList]
+
+/-- cross-type clone / convert chain of a vector: the same `Container` code path, i.e. the same heap model -/
+def showXVec (v : VecX) (useClone : Bool) (dDiff iDiff : Bool) (mode : CloneMode) : String :=
+  let h0 : Heap Rat := ⟨#[v.val], #[v.idx]⟩
+  let c0 : Handle := ⟨if v.val.size > 0 then [0] else [], if v.idx.size > 0 then [0] else []⟩
+  -- DenseVector(Blocked)::convert = assign; SparseVector::convert = "a deep copy in any case"
+  let stepH := fun (h : Heap Rat) (c : Handle) =>
+    if useClone then h.xclone (truncBits 53) c dDiff iDiff mode
+    else if v.kind == "sv" then h.xclone (truncBits 53) c dDiff iDiff .deep
+    else h.assign (truncBits 53) c dDiff iDiff
+  let r1 := stepH h0 c0
+  let r2 := stepH r1.1 r1.2
+  let b := fun (x : Bool) => if x then "1" else "0"
+  let one := fun (o : Bool × Nat × Bool × Bool) => s!"{b o.1} {o.2.1} {b o.2.2.1} {b o.2.2.2}"
+  let ac := pairObservation r2.1 c0 r2.2 mark 0
+  s!"X {one (pairObservation r2.1 c0 r1.2 mark 0)} {one (pairObservation r2.1 r1.2 r2.2 mark 0)} {one ac} {b ac.2.2.1} "
+
+def vecxStepsP : Nat → VecX → String → P String
+  | 0, _, acc => pure acc
+  | n + 1, v, acc => do
+    let op ← tok
+    let d ← nat; let i ← nat
+    let useClone := op == "xclone"
+    if !useClone && op != "xconv" then pure "BAD-OP" else
+    let k ← (if useClone then nat else pure 0)
+    let mode? : Option CloneMode := match k with
+      | 0 => some .shallow | 1 => some .layout | 2 => some .weak | 3 => some .deep | 4 => some .allocate | _ => none
+    match mode? with
+    | none => pure "BAD-OP"
+    | some mode =>
+      if d > 1 || i > 1 || (d == 0 && i == 0) then pure "BAD-OP" else
+      let v' : VecX := { v with val := if d == 1 then v.val.map (truncBits 53) else v.val,
+                                idx := if i == 1 then narrow32 (narrow32 v.idx) else v.idx }
+      vecxStepsP n v' (acc ++ "| " ++ showXVec v useClone (d == 1) (i == 1) mode ++ dumpVecX v' ++ " ")
+
+def vecxP : P String := do
+  let kind ← tok
+  let v ← (match kind with
+    | "dv" => do let x ← ratList; pure (some (⟨"dv", x.length, #[], x.toArray⟩ : VecX))
+    | "dvb" => do let x ← ratList; pure (some (⟨"dvb", x.length / 2, #[], x.toArray⟩ : VecX))
+    | "sv" => do
+      let n ← nat; let ix ← natList; let x ← ratList
+      pure (some (if x.isEmpty then ⟨"sv", n, #[], #[]⟩ else ⟨"sv", n, ix.toArray, x.toArray⟩ : VecX))
+    | _ => pure none)
+  match v with
+  | none => pure "BAD-OP"
+  | some v =>
+    let n ← nat
+    vecxStepsP n v ("| " ++ dumpVecX v ++ " ")
 
 def vecStepsP : Nat → Array Rat → String → P String
   | 0, _, acc => pure acc
@@ -222,7 +286,10 @@ def vecStepsP : Nat → Array Rat → String → P String
 def handle : P String := do
   let it ← nat
   if it != 32 && it != 64 then throw "bad index type"
-  if (← get).headD "" == "vec" then
+  if (← get).headD "" == "vecx" then
+    let _ ← tok
+    vecxP
+  else if (← get).headD "" == "vec" then
     let _ ← tok
     let x ← ratList
     let n ← nat
